@@ -1,11 +1,16 @@
 import Octo.Drv.OpsCodec
+import Octo.Drv.C16
 /-! C15 driver: the operator models on one op line, and the property oracle — `valid_out` and
     `net_commutes` against the batch specifications of `Octo.Model.OpSpec` — evaluated on what the
     real nodes emitted. -/
 namespace Octo.Drv.C15
 open Octo Octo.Codec Octo.Ops Octo.Drv.Ops
 
-def model (toks : List String) : String := Octo.Drv.Ops.model toks
+def model (toks : List String) : String :=
+  match toks with
+  | "gb" :: _ => Octo.Drv.C16.model toks      -- the group-by node under COUNTING / WATERMARK triggers (shared with C16)
+  | "sgb" :: _ => Octo.Drv.C16.model toks
+  | _ => Octo.Drv.Ops.model toks
 
 def totalV (e : Expr) (x : Row) : Value :=
   match e.eval [x] with
@@ -96,7 +101,7 @@ def judgeNode (n : Node) (l : Line) (cls : String) (om : List Msg) : String :=
       if !allAdds outRecs then "bad order-by-emits-retraction-or-event-time"
       else if rowsEq outRows exp then "ok" else "bad order-by-differs-from-sorted-batch"
 
-def judge (toks : List String) (out : List String) : String :=
+def judgeOps (toks : List String) (out : List String) : String :=
   match parseLine toks, parseImplOut out with
   | some l, some (cls, om) =>
     if !validFast (recs l.msgs) then
@@ -112,5 +117,11 @@ def judge (toks : List String) (out : List String) : String :=
         if ns.all unconditional && !validFast (recs om) then "bad pipeline-output-retracts-absent-row" else "ok"
   | none, _ => "bad unparsable-op"
   | _, none => "bad unparsable-impl-output"
+
+def judge (toks : List String) (out : List String) : String :=
+  match toks with
+  | "gb" :: _ => Octo.Drv.C16.judge toks out
+  | "sgb" :: _ => Octo.Drv.C16.judge toks out
+  | _ => judgeOps toks out
 
 end Octo.Drv.C15
